@@ -126,6 +126,14 @@ CHECKS = {
              "plain-subclass override) record every root before/after each step; TLC judges defaults/arguments/peers unchanged, no two roots sharing a mutable object, and "
              "reset/del == nearest default. The per-call peer/default clauses are also judged on the (state, action) tables of four core scenarios.",
         note=TB, technique="TLA+ heap/alias model (TLC) + declarative default rule; TLC-judged real histories with identity tokens", ref="3 C08"),
+    "C11": dict(
+        text="SpecClassOps.tla models spec_property reads (stored entry, else getter on current state, cached when caching is on), overrides, deletions and the transitive "
+             "invalidation closure; SpecClass.tla adds read/override/delete-property actions and TLC checks InvFresh (no cache entry differs from the getter recomputed without "
+             "caches) in every reachable state of five dependency-graph scenarios (attribute->cached->cached chain with a '*' wildcard dependant, managed attribute "
+             "invalidated_by, chain through a NON-caching property, collection dependency mutated by element helpers, dependants added by a subclass). Every (state, action) -- "
+             "states include filled caches and overrides, reached by real reads/assignments -- is executed on the real classes; TLC judges Fresh on the observed object, the "
+             "value every read returns, and (through the Step equality that includes the cache slots) that unrelated or failing mutations discard nothing.",
+        note=TB, technique="TLA+ spec + TLC model checking (Fresh invariant); spec->code replay of every (state, action); TLC-judged", ref="3 C11"),
 }
 
 PENDING = "check not built yet in this round (see DESIGN.md section 3 for the planned TLA+ module)"
